@@ -28,8 +28,8 @@ LEVEL_NOTE = ("PARTIAL by nature: the private-key file round trip (PEM serialisa
               "the cryptography library's and is tested on real keys, not proved; library validations (RSA numbers, curve "
               "points, 32-byte Ed25519 keys) and UTF-8 decoding are oracles; compressed EC points are outside the decoder "
               "model.  A pre-existing target keeps its permissions (0644 stays 0644 and then holds the key): proved and "
-              "observed; not a violation of the property's wording (not newly created).  write_private_key_file(password='') "
-              "raises ValueError after truncating the target (observed, noted).  Ed25519Key cannot write private keys.  "
+              "observed; not a violation of the property's wording (not newly created).  write_private_key_file(password='' or b'') "
+              "raises ValueError after creating / truncating the target (an empty 0600 file is left; the oracle only demands that nothing loadable without a passphrase is written); a missing parent directory is refused with FileNotFoundError.  Ed25519Key cannot write private keys.  "
               "The key names, RSAKey.HASHES, curve names / field sizes (gen/c35.py) and the os.open mode (gen/c36.py, which also pins by AST "
               "that every class's write_private_key_file is one call of PKey._write_private_key_file, whose only os.open has flags "
               "O_WRONLY|O_TRUNC|O_CREAT, and that the four key modules contain no other file-creating call) are regenerated from "
@@ -222,6 +222,105 @@ def protected_files(ctx, keys):
     return out
 
 
+def write_grid(ctx, keys, tmp, old_umask):
+    """write_private_key_file / write_private_key into every destination state (new file, existing file, missing
+    parent directory, read-only directory) with every kind of passphrase (None, text, unicode, bytes, EMPTY str,
+    EMPTY bytes) under several umasks.  Whatever the call does (return or raise): a key file that did not exist before
+    and exists afterwards has no permission bit outside 0600; an existing target keeps its mode; and whenever a
+    passphrase object was given (not None), nothing that was written may load as a key WITHOUT a passphrase."""
+    import paramiko
+    rng = ctx.rng
+    signers = [(l, k) for l, k, _ in keys if isinstance(k, (paramiko.RSAKey, paramiko.ECDSAKey)) and k.can_sign()]
+    picked = [next(x for x in signers if isinstance(x[1], paramiko.RSAKey)),
+              next(x for x in signers if isinstance(x[1], paramiko.ECDSAKey))]
+    if ctx.thorough:
+        picked += signers[2:5]
+    pws = [None, "x", "pässwörd☃", b"bytes-pw", "", b""]
+    dests = ["new", "existing-0644", "existing-0600", "missing-parent", "missing-parents-2", "readonly-dir"]
+    umasks = [0o022, 0, 0o077, 0o027, 0o002]
+    n = 0
+    for label, k in picked:
+        cls = type(k)
+        grid = [(d, pw, rng.choice(umasks)) for d in dests for pw in pws]
+        grid += [("missing-parent", rng.choice(pws), um) for um in umasks] + [("new", "", um) for um in umasks]
+        for dest, pw, um in grid:
+            n += 1
+            base = os.path.join(tmp, "grid%d" % n)
+            os.mkdir(base, 0o755)
+            path = os.path.join(base, "id_key")
+            before = None
+            if dest.startswith("existing"):
+                before = int(dest[-4:], 8)
+                open(path, "w").write("old contents\n")
+                os.chmod(path, before)
+            elif dest == "missing-parent":
+                path = os.path.join(base, "nodir", "id_key")
+            elif dest == "missing-parents-2":
+                path = os.path.join(base, "a", "b", "id_key")
+            elif dest == "readonly-dir":
+                os.chmod(base, 0o555)
+            case = {"key": label, "class": cls.__name__, "destination": dest, "password": repr(pw), "umask": oct(um)}
+            os.umask(um)
+            try:
+                try:
+                    k.write_private_key_file(path, password=pw)
+                    outcome = "returned"
+                except Exception as e:   # noqa: IOError / ValueError are legitimate refusals
+                    outcome = type(e).__name__
+                finally:
+                    os.umask(old_umask)
+            finally:
+                if dest == "readonly-dir":
+                    os.chmod(base, 0o755)
+            ctx.count(("grid", label, dest, repr(pw), um), kind="write-grid:%s:%s" % (dest, "pw-empty" if pw in ("", b"") else
+                                                                                         "pw-none" if pw is None else "pw"))
+            if os.path.exists(path):
+                mode = stat.S_IMODE(os.stat(path).st_mode)
+                if before is None and (mode & ~0o600):
+                    ctx.fail("new-key-file-mode:%s:%s" % (cls.__name__, dest.split("-")[0]),
+                             "write_private_key_file(%s destination, umask %s) %s and left a NEW key file with mode %s "
+                             "(bits outside 0600)" % (dest, oct(um), outcome, oct(mode)), case=case, expected="0600 & ~umask",
+                             observed=oct(mode))
+                if before is not None and mode != before:
+                    ctx.notes.append("pre-existing target mode changed: %s -> %s" % (oct(before), oct(mode)))
+                os.chmod(path, 0o600)
+                check_not_plaintext(ctx, cls, k, open(path).read(), pw, outcome, case, "write_private_key_file")
+                if outcome == "returned":
+                    try:
+                        back = cls.from_private_key_file(path, pw) == k
+                    except Exception:   # noqa
+                        back = False
+                    if not back:
+                        ctx.fail("private-roundtrip:%s" % cls.__name__, "write_private_key_file returned but the file does not load "
+                                 "back with the same passphrase", case=case)
+            elif outcome == "returned":
+                ctx.fail("key-file-not-written:%s" % cls.__name__, "write_private_key_file returned without creating the file", case=case)
+        # the file-object variant with the same passphrase grid
+        for pw in pws:
+            f = io.StringIO()
+            try:
+                k.write_private_key(f, password=pw)
+                outcome = "returned"
+            except Exception as e:   # noqa
+                outcome = type(e).__name__
+            ctx.count(("grid-fo", label, repr(pw)), kind="write-grid:file-object")
+            check_not_plaintext(ctx, cls, k, f.getvalue(), pw, outcome,
+                                {"key": label, "class": cls.__name__, "destination": "file-object", "password": repr(pw)}, "write_private_key")
+
+
+def check_not_plaintext(ctx, cls, k, text, pw, outcome, case, api):
+    """A passphrase object was given: whatever was written must not load as a key without a passphrase."""
+    if pw is None or not text:
+        return
+    try:
+        cls.from_private_key(io.StringIO(text), None)
+    except Exception:   # noqa: PasswordRequiredException / SSHException: nothing usable without the passphrase
+        return
+    ctx.fail("plaintext-key-despite-passphrase:%s:%s" % (cls.__name__, "empty" if pw in ("", b"") else "nonempty"),
+             "%s(password=%r) %s and wrote a private key that loads WITHOUT any passphrase" % (api, pw, outcome),
+             case=dict(case, written=text[:120]), expected="encrypted key or refusal", observed="plaintext key")
+
+
 def make_keys(ctx):
     import paramiko
     out = []
@@ -311,7 +410,7 @@ def run(ctx):
                 "RSA / ECDSA / Ed25519 private keys (PEM, encrypted, OpenSSH), the three bundled certificates; per key: asbytes vs "
                 "model, ~25 decoder inputs (genuine, 11 type names incl. invalid UTF-8 and cert names, truncations, curve names, "
                 "off-curve / wrong-length / degenerate points, bad RSA numbers, wrong-length Ed25519 keys, certificate blobs), "
-                "RSA-1024 keys generated until the DER length is a multiple of the PEM cipher block (full PKCS#7 padding block) plus other residues, public counterparts via data= / msg= / from_type_string, bcrypt-protected OpenSSH files (bundled + fresh, all classes) and encrypted PEM files each loaded 5-6 times in one process with right / wrong / no passphrase in right-first and wrong-first order, private write/reload with passphrases (none, ascii, "
+                "RSA-1024 keys generated until the DER length is a multiple of the PEM cipher block (full PKCS#7 padding block) plus other residues, public counterparts via data= / msg= / from_type_string, bcrypt-protected OpenSSH files (bundled + fresh, all classes) and encrypted PEM files each loaded 5-6 times in one process with right / wrong / no passphrase in right-first and wrong-first order, write_private_key_file / write_private_key into every destination state (new, existing 0644 / 0600, missing parent directory one and two levels, read-only directory) x passphrase (None, ascii, unicode, bytes, empty str, empty bytes) x umask {022, 0, 077, 027, 002}: a new file left behind never has bits outside 0600, a given passphrase never yields a key loadable without one; private write/reload with passphrases (none, ascii, "
                 "unicode, long, bytes; reload with same / none / wrong), and write_private_key_file under umasks {0, 022, 027, 077, "
                 "0177, 0277, 0600, 0777, random} onto new and pre-existing (0644, 0666, 0600, 0400, 0755, random) targets")
     ctx.trusted += ["cryptography PEM serialisation / encryption, RSA number and EC point validation, nacl key length check (oracles)",
@@ -472,15 +571,8 @@ def run(ctx):
                 if (a == b) != same or (same and hash(a) != hash(b)):
                     ctx.fail("eq-not-public-material", "== / hash disagree with equality of the public blobs",
                              case={"a": pubs[i][0], "b": pubs[j][0]}, expected=same, observed=a == b)
-        # password="" : observed behaviour, noted
-        label, k, _ = keys[1]
-        path = os.path.join(tmp, "empty")
-        try:
-            k.write_private_key_file(path, password="")
-            ctx.notes.append("password='' wrote a key file")
-        except ValueError as e:
-            ctx.notes.append("write_private_key_file(password='') raises ValueError(%s) and leaves a %d-byte file" % (
-                e, os.path.getsize(path) if os.path.exists(path) else -1))
+        # ---- every destination state x passphrase (incl. empty str / bytes) x umask ----
+        write_grid(ctx, keys, tmp, old_umask)
     finally:
         os.umask(old_umask)
         shutil.rmtree(tmp, ignore_errors=True)
